@@ -38,10 +38,10 @@ BOUNDS = {
              "BMC 8 cycles from reset (7 for (6,2,3)), all subsets of simultaneous read/peek/write/clear calls, all count/max_count/data arguments; "
              "one-step induction for these shapes and (6,3,3), (8,2,2)",
     "thorough": "every (depth <= 8, read_width <= 3, write_width <= 3) with depth a multiple of max(read_width, write_width), with and without "
-                "write_max_count, 2-bit elements: BMC 12 cycles from reset, except (6,2,2): 11, (8,2,2) and (6,3,2): 10, (6,2,3): 9, (6,3,3): 8 "
-                "(smaller than the planned 12: solver time grows 2-3x per cycle for shapes with several rows and columns; (6,3,3) exceeds 7 min at 12), "
+                "write_max_count, 2-bit elements: BMC 12 cycles from reset, except (6,1,2) and (6,1,3): 11, (6,2,2): 10, (8,2,2) and (6,3,2): 9, "
+                "(6,2,3) and (6,3,3): 8 (smaller than the planned 12: solver time grows 2-3x per cycle for these shapes; (6,3,3) exceeds 7 min at 12), "
                 "plus one-step induction for every one of these configurations (closes: unbounded histories per configuration); "
-                "(4,2,2) BMC 12 and (6,3,2) BMC 9 also with 3-bit elements; induction only for (12,3,2), (16,2,2), (12,2,3)",
+                "(4,2,2) BMC 12 and (6,3,2) BMC 8 also with 3-bit elements; induction only for (12,3,2), (16,2,2), (12,2,3)",
 }
 OUTSIDE = ["histories longer than the BMC bound where the inductive step is not run or not closed", "depths/widths/shapes not enumerated",
            "write calls with count > write_width or (write_max_count) count > max_count: outside the documented argument domain",
@@ -65,12 +65,11 @@ def make(cfg):
 
 
 def _bmc_k(depth, rw, ww):
-    """BMC depth of the thorough tier: 12 cycles where the query stays below ~1 min of solver time, fewer for the shapes with
-    several rows AND several columns on both sides (measured CPU: the cost grows 2-3x per cycle; (6,3,3): 20-60 s at 8, 150 s at 9,
-    >7 min at 12; (6,2,2): 90 s at 11; (8,2,2): 80 s at 10; (6,3,2): 70 s at 10; (6,2,3): 50-75 s at 9)."""
-    if min(rw, ww) == 1 or depth <= 4:
-        return 12
-    return {(6, 2, 2): 11, (8, 2, 2): 10, (6, 3, 2): 10, (6, 2, 3): 9, (6, 3, 3): 8}[(depth, rw, ww)]
+    """BMC depth of the thorough tier: 12 cycles where the query stays below ~1 min of CPU, fewer for the shapes with several
+    rows and a wide side (measured CPU of the single BMC query, growing 2-3x per cycle: (6,3,3): 20-60 s at 8, 150 s at 9, >7 min at 12;
+    (6,2,2): 40 s at 10, 90 s at 11; (8,2,2): 30 s at 9, 80 s at 10; (6,3,2): 45 s at 9, 70 s at 10; (6,2,3): 50-75 s at 9;
+    (6,1,3): 115 s at 12; (6,1,2): 80 s at 12).  The induction step covers longer histories for all of them."""
+    return {(6, 2, 2): 10, (8, 2, 2): 9, (6, 3, 2): 9, (6, 2, 3): 8, (6, 3, 3): 8, (6, 1, 3): 11, (6, 1, 2): 11}.get((depth, rw, ww), 12)
 
 
 def configs(tier, seed):
